@@ -35,8 +35,9 @@ Calls ==
    \cup {[k |-> "goue", n |-> n, v |-> v, ix |-> ix] : n \in Ns, v \in {"fin", "nan", "zero"}, ix \in {"const", "runs"}}
    \cup {[k |-> "islinear", n |-> n, v |-> v, npoints |-> np] : n \in Ns \cup {8}, v \in VC \cup {"const"}, np \in {0, 1, 3, 9}}
    \cup {[k |-> "eckhardt", n |-> n, v |-> v, tt |-> tt, thresh |-> th, tau |-> tau] : n \in Ns, v \in {"fin", "nan", "neg", "pinf"}, tt \in {0, 1, 2}, th \in {0, 1, 2}, tau \in {0, 20}}
-   \cup {[k |-> "var2h", n |-> n, v |-> v, span |-> sp, P |-> P, maxgap |-> mg, rain |-> r] :
-        n \in Ns \cup {9}, v \in {"fin", "nan", "neg", "lastnan"}, sp \in {"short", "hour", "long", "dup"}, P \in {1800, 3600, 900}, mg \in {3600, 86400}, r \in BOOLEAN}
+   \cup {[k |-> "var2h", n |-> n, v |-> v, span |-> sp, P |-> P, maxgap |-> mg, rain |-> r, onhour |-> oh] :
+        n \in Ns \cup {9}, v \in {"fin", "nan", "neg", "lastnan"}, sp \in {"short", "quarter", "hour", "long", "dup"}, P \in {1800, 3600, 900},
+        mg \in {3600, 86400}, r \in BOOLEAN, oh \in BOOLEAN}
    \cup {[k |-> "crps", n |-> n, m |-> m, v |-> v] : n \in {0, 1, 2, 3}, m \in {0, 1, 2, 3}, v \in VC}
    \cup {[k |-> "dscore", n |-> n, m |-> m, v |-> v, eps |-> e] : n \in {0, 1, 2, 3}, m \in {0, 1, 2, 3}, v \in {"fin", "nan", "const", "pinf", "huge"}, e \in {0, 1}}
    \cup {[k |-> "pit", n |-> n, m |-> m, v |-> v, random |-> r] : n \in {0, 1, 3}, m \in {0, 1, 3}, v \in {"fin", "nan", "pinf"}, r \in BOOLEAN}
@@ -57,8 +58,8 @@ Calls ==
    \cup {[k |-> kk, shape |-> s, fd |-> fd, outlet |-> o, inlets |-> i, nval |-> nv] :
         kk \in {"cat.delineate", "cat.boundary", "cat.flowpaths"}, s \in Shapes, fd \in FDs, o \in {"last", "first", "neg", "over"},
         i \in {"none", "valid", "invalid", "neg"}, nv \in {0, 1, 2, 3, 8}}
-   \cup {[k |-> "cat.intersect", shape |-> s, fd |-> fd, outlet |-> "last", inlets |-> "none", nval |-> 8, cshape |-> cs, csz |-> cz, off |-> off, filled |-> f] :
-        s \in Shapes, fd \in {"se", "west", "sink"}, cs \in {<<1, 1>>, <<2, 2>>}, cz \in {1, 2}, off \in {0, -1, 50}, f \in BOOLEAN}
+   \cup {[k |-> "cat.intersect", shape |-> s, fd |-> fd, outlet |-> "last", inlets |-> "none", nval |-> 20, cshape |-> cs, csz |-> cz, off |-> off, filled |-> f] :
+        s \in Shapes \cup {<<4, 4>>}, fd \in {"se", "west", "sink"}, cs \in {<<1, 1>>, <<2, 2>>, <<3, 3>>, <<5, 5>>}, cz \in {1, 2}, off \in {0, -1, 50}, f \in BOOLEAN}
    \cup {[k |-> "cat.voronoi", shape |-> s, fd |-> fd, outlet |-> "last", inlets |-> "none", nval |-> 8, n |-> n, p |-> p] :
         s \in Shapes, fd \in {"se", "west", "sink"}, n \in {0, 1, 2, 5}, p \in PtClasses}
    \cup {[k |-> "accumulate", shape |-> s, fd |-> fd, nprint |-> np, maxacc |-> ma] : s \in Shapes, fd \in FDs, np \in {0, 1, 100, -1}, ma \in {-1, 0, 1, 5}}
